@@ -139,6 +139,7 @@ class Kernel:
         self.trace_digest = hashlib.sha256()
         self.seam_hook = None       # callable(kind, detail): may raise an injected fault
         self.task_counter = 0       # pool task ids are unique across all pools of a run
+        self.rng_finder = None      # callable() -> generator objects in module globals (re-scanned at every fork)
         self.armed = None
 
     # ---- logging (never draws a choice, never reads a real clock) -------------------
@@ -811,6 +812,12 @@ class SimPool:
     def _launch_all(self):
         k = self.k
         parent = k.current
+        if k.rng_finder is not None:
+            # generator objects that exist in module globals at fork time are part of what fork copies
+            known = {id(o) for o in k.rng_objects}
+            for o in k.rng_finder():
+                if id(o) not in known:
+                    k.rng_objects.append(o)
         snap = k.snapshot_private(parent)
         for i in range(self.W):
             delay = k.delay(parent, 'fork')
